@@ -1,42 +1,9 @@
-(* Lemmas/GenHelpers.v — the array helpers TRANSLATED from /repo/FDApy/misc/utils.py on every run (Gen/Helpers.v) are
-   the model functions: _integration_weights(method="trapz") is Base.Quad.trapz_w and _estimate_noise_variance is
-   Model.Stats.noise_var1 on the difference sequence of the order. *)
+(* Lemmas/GenNoiseVar.v — _estimate_noise_variance TRANSLATED from /repo/FDApy/misc/utils.py on every run
+   (Gen/NoiseVar.v) is Model.Stats.noise_var1 on the difference sequence of the order. *)
 From Coq Require Import List Bool Arith Reals Lra Lia.
-From FDAV Require Import Base.Num Base.Vec Base.Quad Model.Stats Lemmas.Vec Lemmas.Quad Gen.Helpers.
+From FDAV Require Import Base.Num Base.Vec Model.Stats Lemmas.Vec Gen.NoiseVar.
 Import ListNotations.
 Local Open Scope R_scope.
-
-Lemma half_const : odiv opsR (oofnat opsR 1) (oofnat opsR 2) = / 2.
-Proof. cbn. rewrite Rdiv0_nz by lra. lra. Qed.
-
-Lemma vscaleR_cons c a x : vscale opsR c (a :: x) = c * a :: vscale opsR c x.
-Proof. reflexivity. Qed.
-Lemma vsubR_cons a x b y : vsub opsR (a :: x) (b :: y) = (a - b) :: vsub opsR x y.
-Proof. unfold vsub. cbn [map2]. rewrite osubR. reflexivity. Qed.
-
-Lemma trapz_w_from_gen : forall x' a b,
-  trapz_w_from opsR (b :: x') a =
-  vscale opsR (/ 2) (vsub opsR x' (firstn (length x') (a :: b :: x'))
-                     ++ [osub opsR (nth (S (length x')) (a :: b :: x') 0) (nth (length x') (a :: b :: x') 0)]).
-Proof.
-  induction x' as [|c x'' IH]; intros a b.
-  - rewrite trapz_w_from_single. cbn [length firstn vsub map2 app nth].
-    unfold osub. cbn. f_equal. lra.
-  - rewrite trapz_w_from_cons, IH. cbn [length firstn]. rewrite vsubR_cons.
-    cbn [app]. rewrite vscaleR_cons. f_equal. lra.
-Qed.
-
-Theorem gen_trapz_weights_is_model x : (2 <= length x)%nat -> gen_trapz_weights opsR x = trapz_w opsR x.
-Proof.
-  destruct x as [|a [|b x']]; cbn [length]; intros H; try lia.
-  unfold gen_trapz_weights. rewrite half_const.
-  change (trapz_w opsR (a :: b :: x')) with (ohalf opsR (osub opsR b a) :: trapz_w_from opsR (b :: x') a).
-  rewrite trapz_w_from_gen.
-  cbn [length nth skipn]. replace (S (S (length x')) - 2)%nat with (length x') by lia.
-  replace (S (S (length x')) - 1)%nat with (S (length x')) by lia.
-  rewrite firstn_all. cbn [app]. rewrite vscaleR_cons. f_equal.
-  rewrite ohalfR, osubR. lra.
-Qed.
 
 (* the windows of the model are the slices x[idx : idx + k] of the code *)
 Lemma windows_slices {T} : forall (x : list T) k, (1 <= k)%nat ->
@@ -102,7 +69,3 @@ Proof.
   - intros S. apply noise_var1_short. rewrite L. exact S.
 Qed.
 
-(* _integration_weights(method="trapz") as it stands in the source gives the trapezoid rule as a weighted sum *)
-Theorem source_trapz_weights x y : (2 <= length x)%nat -> length x = length y ->
-  trapz opsR x y = dot opsR (gen_trapz_weights opsR x) y.
-Proof. intros H L. rewrite gen_trapz_weights_is_model by exact H. apply trapz_is_weighted_sum. exact L. Qed.
